@@ -171,6 +171,9 @@ func runC02R5(c *Ctx, r *Rep) {
 				if _, isIdx := unparen(call.Fun).(*ast.IndexExpr); isIdx {
 					break
 				}
+				if f := Callee(c.MustPkg("vm").TypesInfo, call); f != nil && callsJumpTable(c, f) {
+					break
+				}
 			}
 		}
 	}
